@@ -167,7 +167,8 @@ Qed.
 
 (* ---------- mint fees ---------- *)
 Definition msite_featured (k : msite) : bool := match k with MsVending ft => ft | _ => false end.
-Definition msite_dev (k : msite) : option addr := match k with MsOpen dv => Some dv | _ => None end.
+Definition msite_dev (k : msite) : option addr := match k with MsOpen dv _ => Some dv | _ => None end.
+Definition msite_valid (k : msite) : bool := match k with MsOpen _ v => v | _ => true end.
 
 Lemma mint_site_cases k d price bps funds :
   site_mint_fee k d price bps funds =
@@ -175,13 +176,16 @@ Lemma mint_site_cases k d price bps funds :
   | Err => Err
   | Ok p => if negb (p =? price) then Err
             else if price * bps / 10000 =? 0 then Ok []
-            else Ok (mint_fees_spec d (price * bps / 10000) (msite_featured k) (msite_dev k))
+            else if msite_valid k
+                 then Ok (mint_fees_spec d (price * bps / 10000) (msite_featured k) (msite_dev k))
+                 else Err
   end.
 Proof.
   unfold site_mint_fee, mint_fee. destruct (may_pay funds d) as [p|]; cbn [bind]; [ | reflexivity ].
   destruct (negb (p =? price)); [ reflexivity | ].
   destruct (price * bps / 10000 =? 0); [ reflexivity | ].
-  destruct k; cbn [msite_featured msite_dev]; apply distribute_mint_fees_exact.
+  destruct k as [ft|dv [|]|]; cbn [msite_featured msite_dev msite_valid]; try reflexivity;
+    apply distribute_mint_fees_exact.
 Qed.
 
 (* the same with the documented numbers written out *)
@@ -194,21 +198,47 @@ Lemma mint_site_schedule : forall (k : msite) (d : denom) (price bps : N) (funds
       else
         let F := price * bps / 10000 in
         if F =? 0 then Ok []
-        else Ok match k with
-                | MsVending true => [Send A_LIQUIDITY_DAO d ((F + 7) / 8); Send A_LAUNCHPAD_DAO d (F - (F + 7) / 8)]
-                | MsVending false | MsTokenMerge =>
-                    [Send A_LIQUIDITY_DAO d ((F + 4) / 5); Send A_LAUNCHPAD_DAO d (F - (F + 4) / 5)]
-                | MsOpen dev =>
-                    let devf := (F + 1) / 2 in
-                    let R := F - devf in
-                    [Send dev d devf; Send A_LIQUIDITY_DAO d ((R + 4) / 5); Send A_LAUNCHPAD_DAO d (R - (R + 4) / 5)]
-                end
+        else match k with
+             | MsVending true => Ok [Send A_LIQUIDITY_DAO d ((F + 7) / 8); Send A_LAUNCHPAD_DAO d (F - (F + 7) / 8)]
+             | MsVending false | MsTokenMerge =>
+                 Ok [Send A_LIQUIDITY_DAO d ((F + 4) / 5); Send A_LAUNCHPAD_DAO d (F - (F + 4) / 5)]
+             | MsOpen dev true =>
+                 let devf := (F + 1) / 2 in
+                 let R := F - devf in
+                 Ok [Send dev d devf; Send A_LIQUIDITY_DAO d ((R + 4) / 5); Send A_LAUNCHPAD_DAO d (R - (R + 4) / 5)]
+             | MsOpen dev false => Err
+             end
   end.
 Proof.
   intros k d price bps funds. rewrite mint_site_cases.
   destruct (may_pay funds d) as [q|]; [ | reflexivity ]. destruct (negb (q =? price)); [ reflexivity | ].
   cbv zeta. destruct (price * bps / 10000 =? 0); [ reflexivity | ].
-  destruct k as [[|]| |]; reflexivity.
+  destruct k as [[|]|dv [|]|]; reflexivity.
+Qed.
+
+(* open-edition minters: a developer is configured; whenever a mint that charges a fee is
+   accepted the developer is sent exactly ceil(F/2), before anybody else, whatever the
+   configured string looks like (a string the chain refuses never yields an accepted mint) *)
+Lemma oe_developer_share dev valid d price bps funds ms :
+  site_mint_fee (MsOpen dev valid) d price bps funds = Ok ms ->
+  price * bps / 10000 <> 0 ->
+  valid = true /\
+  ms = [Send dev d ((price * bps / 10000 + 1) / 2);
+        Send A_LIQUIDITY_DAO d ((price * bps / 10000 - (price * bps / 10000 + 1) / 2 + 4) / 5);
+        Send A_LAUNCHPAD_DAO d (price * bps / 10000 - (price * bps / 10000 + 1) / 2
+                                - (price * bps / 10000 - (price * bps / 10000 + 1) / 2 + 4) / 5)].
+Proof.
+  rewrite mint_site_schedule. intros H HF.
+  destruct (may_pay funds d) as [q|]; [ | discriminate ]. destruct (negb (q =? price)); [ discriminate | ].
+  cbv zeta in H. apply N.eqb_neq in HF. rewrite HF in H.
+  destruct valid; [ | discriminate ]. injection H as <-. split; reflexivity.
+Qed.
+
+Lemma oe_invalid_developer_rejected dev d price bps funds :
+  price * bps / 10000 <> 0 -> site_mint_fee (MsOpen dev false) d price bps funds = Err.
+Proof.
+  intros HF. rewrite mint_site_cases. destruct (may_pay funds d) as [q|]; [ | reflexivity ].
+  destruct (negb (q =? price)); [ reflexivity | ]. apply N.eqb_neq in HF. rewrite HF. reflexivity.
 Qed.
 
 (* ---------- all sites at once ---------- *)
@@ -268,9 +298,10 @@ Proof.
   - rewrite mint_site_cases in H. destruct (may_pay funds d) as [p|] eqn:Hp; [ | discriminate ].
     destruct (p =? price) eqn:E; cbn [negb] in H; [ | discriminate ]. apply N.eqb_eq in E. subst p.
     rewrite (may_pay_paid _ _ _ Hp).
-    destruct (price * bps / 10000 =? 0) eqn:Ez; injection H as <-.
+    destruct (price * bps / 10000 =? 0) eqn:Ez; [ injection H as <- | ].
     + cbn [debits]. lia.
-    + rewrite debits_mint_spec. destruct (dd =? d); [ | lia ]. apply mint_fee_le_price. exact Hrate.
+    + destruct (msite_valid k); [ | discriminate ]. injection H as <-.
+      rewrite debits_mint_spec. destruct (dd =? d); [ | lia ]. apply mint_fee_le_price. exact Hrate.
 Qed.
 
 (* the pool is always funded on behalf of the contract that runs the site *)
@@ -298,7 +329,8 @@ Proof.
   - eapply FB; [ exact H | exact Hin ].
   - rewrite mint_site_cases in H. destruct (may_pay funds d) as [q|]; [ | discriminate ].
     destruct (negb (q =? price)); [ discriminate | ].
-    destruct (price * bps / 10000 =? 0); injection H as <-; [ destruct Hin | ].
+    destruct (price * bps / 10000 =? 0); [ injection H as <-; destruct Hin | ].
+    destruct (msite_valid k); [ | discriminate ]. injection H as <-.
     unfold mint_fees_spec in Hin. destruct (msite_dev k); cbn [In] in Hin;
       repeat (destruct Hin as [C|Hin]; [ discriminate | ]); destruct Hin.
 Qed.
